@@ -188,8 +188,14 @@ func (s *Server) sendTransaction(t Transaction) error {
 		return nil
 	}
 
-	_, err := io.Copy(client.Connection, &t)
+	// Serialise the whole transaction and hand it to the connection in a single Write: transactions to
+	// the same client are written by concurrent goroutines, and io.Copy would split anything over 32 KiB
+	// into several writes between which another transaction could land.
+	b, err := io.ReadAll(&t)
 	if err != nil {
+		return fmt.Errorf("failed to serialise transaction for client %v: %v", t.ClientID, err)
+	}
+	if _, err := client.Connection.Write(b); err != nil {
 		return fmt.Errorf("failed to send transaction to client %v: %v", t.ClientID, err)
 	}
 
